@@ -43,7 +43,7 @@ def main(argv=None):
     import io
     import contextlib
     argv = list(sys.argv[1:] if argv is None else argv)
-    if os.environ.get("SA_NORMALISE", "") == "1" or "--replay" in argv:
+    if os.environ.get("SA_NORMALISE", "") in ("1", "2") or "--replay" in argv:
         return _main(argv)
     buf = io.StringIO()
     with contextlib.redirect_stdout(buf):
@@ -51,21 +51,22 @@ def main(argv=None):
     if rc == 0:
         sys.stdout.write(buf.getvalue())
         return 0
-    os.environ["SA_NORMALISE"] = "1"
-    buf2 = io.StringIO()
-    try:
-        with contextlib.redirect_stdout(buf2):
-            rc2 = _main(argv)
-    finally:
-        os.environ.pop("SA_NORMALISE", None)
-    if rc2 == 0 and chk_holder and chk_holder[0].prog.normal_info:
-        sys.stdout.write(buf2.getvalue())
-        inl = sorted({h for v in chk_holder[0].prog.normal_info.values() for h in v["helpers_inlined"]})
-        nun = sum(v.get("loops_unrolled", 0) for v in chk_holder[0].prog.normal_info.values())
-        print(f"note: the rules did not recognise the tree as written (first run: exit {rc}); they hold on its normal form "
-              f"(N1 private helpers inlined into their callers: {', '.join(inl) or 'none'}; N2 loops over literal tables unrolled: {nun})")
-        return 0
-    # not clean on either form: the report on the tree as written stands (re-run to rewrite its evidence file)
+    for mode, label in (("1", "N1"), ("2", "N1+N2")):
+        os.environ["SA_NORMALISE"] = mode
+        buf2 = io.StringIO()
+        try:
+            with contextlib.redirect_stdout(buf2):
+                rc2 = _main(argv)
+        finally:
+            os.environ.pop("SA_NORMALISE", None)
+        if rc2 == 0 and chk_holder and chk_holder[0].prog.normal_info:
+            sys.stdout.write(buf2.getvalue())
+            inl = sorted({h for v in chk_holder[0].prog.normal_info.values() for h in v["helpers_inlined"]})
+            nun = sum(v.get("loops_unrolled", 0) for v in chk_holder[0].prog.normal_info.values())
+            print(f"note: the rules did not recognise the tree as written (first run: exit {rc}); they hold on its normal form {label} "
+                  f"(N1 private helpers inlined into their callers: {', '.join(inl) or 'none'}; N2 loops over literal tables unrolled: {nun})")
+            return 0
+    # not clean on any form: the report on the tree as written stands (re-run to rewrite its evidence file)
     with contextlib.redirect_stdout(io.StringIO()):
         _main(argv)
     sys.stdout.write(buf.getvalue())
